@@ -5,6 +5,7 @@ import crosscut as cc
 PID = "C15"
 MODEL_TARGETS = cc.ALL_MODELS + ["Carrier"]
 PROPS_TARGETS = ["Props_C15"]
+SUPPORT_TARGETS = ["FloatExact"]
 TRUSTED_BASE = ["partial: the conversion functions (np.array(..).astype(float64), masked_invalid, pandas / dask to numpy, "
                 "mapdates with pd.to_datetime) are library code; Carrier.normalise / mapdates_model are their model, validated "
                 "by running every test on every carrier, not proved"]
